@@ -121,6 +121,8 @@ def check_subsume_merge(chk, prog):
                     xs |= {a[1] for a in hh.origins(arg, outargs=True) if a[0] in ("call", "outarg")}
                 if BR + "combine_subsumed" in xs:
                     ored = True
+    chk.judge(ored, R, BR + "MergeFn::to_callback:flag-change", "the merged flag is compared with the current flag (a flag-only change is a change)",
+              "a change of the subsume flag alone is not reported as a change (the merged row would be dropped)", c.loc)
     # result flows into RowVals.subsume
     outer = prog.fns.get(g.parent) if g.kind == "closure" else None
     flows = False
